@@ -213,7 +213,8 @@ type Entry[K comparable, V any] struct {
 
 // Get returns the current value for the key (ok=false if it was deleted meanwhile).
 //
-//go:norace
+// Get is deliberately NOT //go:norace: in race mode the detector must see the lookup as a
+// read of the map the broker code ranges over.
 func (e Entry[K, V]) Get() (V, bool) { v, ok := e.m[e.K]; return v, ok }
 
 // Iter returns the keys of m in the order the explorer chose (default: sorted).
@@ -224,17 +225,26 @@ func Iter[M ~map[K]V, K comparable, V any](site string, m M) []Entry[K, V] {
 	if n == 0 {
 		return nil
 	}
-	out := make([]Entry[K, V], 0, n)
-	for k := range m {
-		out = append(out, Entry[K, V]{k, m})
-	}
-	if n == 1 {
+	out := mapEntries[M, K, V](m, n)
+	if len(out) <= 1 {
 		return out
 	}
+	n = len(out)
 	sortEntries(out)
 	if active && ex != nil && ex.MapSite != nil && !ex.killed && ex.MapSite(site) {
 		p := ex.choose(ChMap, permCount(n), false, site)
 		applyPerm(out, p)
+	}
+	return out
+}
+
+// mapEntries performs the actual iteration. Deliberately NOT //go:norace: the range over m
+// is the broker code's own map read and the race detector must attribute it (the caller's
+// frames are skipped by the report filter, the first frame outside zzvrt is the broker's).
+func mapEntries[M ~map[K]V, K comparable, V any](m M, n int) []Entry[K, V] {
+	out := make([]Entry[K, V], 0, n)
+	for k := range m {
+		out = append(out, Entry[K, V]{k, m})
 	}
 	return out
 }
